@@ -1107,7 +1107,15 @@ def run(ctx: C.Ctx):
                  "that only ever go down from the declaring kind, at top level, in branches, loops, the main loop, helper parameters via several call "
                  "signatures, helper results joined from differently typed returns, hoisted names) -> firmware under the mock core vs CPython: every "
                  "value written to Serial compared at value level (bool = 0/1, floats to the 2 printed decimals); non-trivial = programs with >= 4 "
-                 "compared values."),
+                 "compared values; (c) now also draws augmented assignments that keep the label and bool/int conditional expressions.  "
+                 "(d) programs with GENERATED helper functions (harness/c02_fngen.py): bodies polymorphic in their parameters, differently typed "
+                 "return expressions (bool/int, bool/float, int/float, all three, str) on value-dependent paths, locals first assigned inside "
+                 "if/elif/else, inside for/while, inside an if inside a loop and a loop inside an if, augmented assignments, helpers calling earlier "
+                 "helpers, local names shared across helpers with different kinds, 2-4 call signatures per helper over int/float/bool(/str) in every "
+                 "order with boundary values (negative, 0, 1, non-integral), results stored in fresh and in wider existing variables, calls at column "
+                 "0 / inside a branch / in the main loop, a top-level if/else hoist and a top-level loop hoist before or after the defs; 3 fixed "
+                 "class representatives run at every seed; an abstract kind interpreter (Checker) keeps every parsed variant inside the guard; "
+                 "same oracle as (c), the shortest failing script is reported first."),
         "guard": ("expressions: Lang/InferGuard.v guard (no string contagion onto a numeric name, numeric operands, `/` and `**` only with a float "
                   "operand, no unary minus on a bool label, and/or only on bool labels, conditional expression with equal or numeric labels, abs/min/max "
                   "on int/bool labels, uniform or numeric list elements, subscripts of list labels, no tuples). programs (theorem): flat_guard = every "
@@ -1115,10 +1123,17 @@ def run(ctx: C.Ctx):
                   "construction of the generator): every label assigned to a name is <= the label of its declaring (first in text order) assignment in "
                   "bool < int < float, String alone; a name whose current label is below its declared one is not read by a right-hand side; names first "
                   "assigned inside a nested block keep one label; helper bodies read only parameters and locals; call arguments are variables or "
-                  "int/bool literals; no `//`, `%`, `**`, int `/` int, str() of a bool (C01's operator/text-form findings)."),
+                  "int/bool literals; no `//`, `%`, `**`, int `/` int, str() of a bool (C01's operator/text-form findings). (d) adds: a parameter is "
+                  "only re-assigned at the kind of its call signature (F-C02-param-declared-from-last-label); names first assigned directly inside a "
+                  "loop body are never names an if/else hoists anywhere in the program (F-C02-stale-promotion-type); function-local names never "
+                  "coincide with globals; return expressions all str or all numeric; a helper that calls another helper shares no local name with it "
+                  "(otherwise the callee variant parsed on demand does not declare its local and the sketch does not compile: C06's subject)."),
         "unmodelled": [
             "calls to user functions from inside function bodies (recursion, helper calling helper: the re-entrant _ensure_function_variant with its "
-            "_refreshing_functions set) - the statement model runs function bodies with the static function table; covered only by oracle (c) (template `twice`)",
+            "_refreshing_functions set) - the statement model runs function bodies with the static function table; covered only by oracles (c) "
+            "(template `twice`) and (d) (generated helpers calling earlier helpers)",
+            "C02_function_result_covers_partial is proved for bodies made of (if-guarded) return statements; returns nested deeper, after assignments "
+            "or inside loops are covered by correspondence (b) and oracle (d)",
             "tuple assignment / swap temporaries, try/except bodies, list variables at statement level (append, element assignment), "
             "function_param_types carried over between re-parses of the same def",
             "_to_c_expr failures (untranslatable right-hand sides abort the parse before typing) - generators only emit translatable expressions",
@@ -1132,6 +1147,7 @@ def run(ctx: C.Ctx):
         "trusted_base": C.COMMON_TRUSTED + [
             "harness/gen/c02_infer.py (regenerates coq/Gen/InferTables.v: _BUILTIN_CALL_RETURN_TYPES, annotation labels; fail-closed)",
             "coq/Lang/PySem.v as the meaning of Python expressions (validated against CPython eval by harness/pysem_check.py)",
+            "harness/c02_fngen.py (generator and the abstract kind interpreter that keeps generated helper programs inside the guard)",
             "harness/pyast_wire.py + label/program codecs in harness/props/c02.py; regex extraction of declaration lines from the emitted sketch (harness/impl/c02_impl.py cpp_decls)",
             "mock Arduino core (mock/) + g++ -O0 as 'the device'; CPython 3.12 + harness/impl/pyrun_impl.py as 'what Python holds'",
             "value-level comparison of Serial lines (same_value_line): bool = 0/1, numbers to 0.0051 when the device prints decimals",
